@@ -77,10 +77,50 @@ def build():
     u.fn(F, ['impl Allocator', 'fn update_generation_length'], props=P,
          requires=[E('nooverflow', 'i < usize::MAX')],
          ensures=[E('len', 'final(self).generations@.len() > i'),
+                  E('grow', 'final(self).generations@.len() >= old(self).generations@.len()'),
                   E('gid', 'forall|k: int| final(self).gid(k) == old(self).gid(k)'),
                   E('frame', 'final(self).alive == old(self).alive && final(self).raised == old(self).raised && final(self).killed == old(self).killed && final(self).cache == old(self).cache && final(self).max_id == old(self).max_id'),
-                  E('nonzero', 'forall|k: int| 0 <= k < final(self).generations@.len() ==> (k < old(self).generations@.len() ==> final(self).generations@[k] == old(self).generations@[k]) && (k >= old(self).generations@.len() ==> final(self).generations@[k].0 is None)')])
+                  E('extend', 'gens_extend_except(old(self), final(self), -1)')])
     u.fn(F, ['impl Allocator', 'fn is_alive'], ret='r', props='C02 C03', rules=[GEN_ONE_CLOSURE],
-         requires=[E('wf', 'self.wf()'), E('headroom', 'self.headroom()'), E('posgen', 'e.1.0@ > 0')],
+         requires=[E('wf', 'self.wf()'), E('headroom', 'self.headroom_n(2)')],
          ensures=[E('alive_spec', 'r == self.alive_spec(e)')])
+    RAISE_CLOSURE = dict(params='gen: Generation', ret='r__: Generation',
+                         requires=[('range', 'gen.0@ != 0 && gen.0@ > i32::MIN + 1')],
+                         ensures=[('val', 'r__.0@ == (if gen.0@ > 0 { gen.0@ as int } else { 1 - gen.0@ })')])
+    u.fn(F, ['impl Allocator', 'fn generation'], ret='r', props='C01 C02',
+         ensures=[E('val', 'r == (if (id as int) < self.generations@.len() { self.generations@[id as int].0 } else { None })')],
+         closures={0: dict(params='gen: ZeroableGeneration', ret='r__: Option<Generation>', ensures=[('field', 'r__ == gen.0')])})
+    u.fn(F, ['impl Allocator', 'fn entity'], ret='r', props='C02', rules=[GEN_ONE_CLOSURE],
+         requires=[E('wf', 'self.wf()'), E('headroom', 'self.headroom_n(2)')],
+         ensures=[E('id', 'r.0 == id'), E('gen', 'r.1.0@ == self.cur_gen(id)')])
+    u.fn(F, ['impl Allocator', 'fn del_err'], ret='r', props='C02', rules=[GEN_ONE_CLOSURE],
+         requires=[E('inrange', '(e.0 as int) < self.generations@.len()')],
+         ensures=[E('entity', 'r.entity == e')])
+    u.fn(F, ['impl Allocator', 'fn kill_atomic'], ret='r', props='C02', mut_self=True,
+         requires=[E('wf', 'old(self).wf()'), E('headroom', 'old(self).headroom_n(2)'), E('legit', 'old(self).abs().legit(e)')],
+         ensures=[E('wf', 'final(self).wf()', 'C01 C02'),
+                  E('result', 'r.is_ok() == old(self).abs().current(e)'),
+                  E('err_entity', 'r.is_err() ==> r.unwrap_err().entity == e'),
+                  E('state', 'final(self).abs() == (if old(self).abs().current(e) { old(self).abs().defer_kill(e) } else { old(self).abs() })'),
+                  E('gid', 'forall|k: int| final(self).gid(k) == old(self).gid(k)', 'C02 C17'),
+                  E('complete', 'old(self).wf_complete() ==> final(self).wf_complete()', 'C17')],
+         hints=[('start', None, 'proof { lemma_alive_spec_is_current(&*self, e); lemma_legit_in_range(&*self, e); }'),
+                ('before_tail', None, 'proof { lemma_abs_defer_kill(old(self), &*self, e); lemma_kill_atomic(old(self), &*self, e); }')])
+    CREATE_ENS = lambda step: [
+        E('wf', 'final(self).wf()', 'C01 C02'),
+        E('handle', 'hid(r) == old(self).abs().created()', 'C01 C20'),
+        E('state', 'final(self).abs() == old(self).abs().%s()' % step, 'C01 C02 C17 C20'),
+        E('complete', 'old(self).wf_complete() ==> final(self).wf_complete()', 'C17'),
+        E('headroom', 'final(self).headroom_n(2)', 'C01'),
+    ]
+    u.fn(F, ['impl Allocator', 'fn allocate_atomic'], ret='r', props='C01 C02 C17 C20', mut_self=True, mut_fields=['max_id'],
+         rules=[GEN_ONE_CLOSURE],
+         requires=[E('wf', 'old(self).wf()'), E('headroom', 'old(self).headroom()')],
+         ensures=CREATE_ENS('create_deferred'),
+         closures={0: RAISE_CLOSURE},
+         hints=[('before_tail', None, 'proof { lemma_alloc(old(self), &*self, id, false); }')])
+    u.fn(F, ['impl Allocator', 'fn allocate'], ret='r', props='C01 C02 C17 C20',
+         requires=[E('wf', 'old(self).wf()'), E('headroom', 'old(self).headroom()')],
+         ensures=CREATE_ENS('create_now'),
+         hints=[('before_tail', None, 'proof { lemma_alloc(old(self), &*self, id as u32, true); }')])
     return u
